@@ -3,7 +3,7 @@ import itertools
 import re
 
 from bibtexparser.library import Library
-from bibtexparser.middlewares.names import MergeCoAuthors, SeparateCoAuthors, split_multiple_persons_names
+from bibtexparser.middlewares.names import MergeCoAuthors, SeparateCoAuthors, SplitNameParts, split_multiple_persons_names
 from bibtexparser.model import Entry, Field
 
 from .. import refs_names as R
@@ -70,7 +70,7 @@ def shards(tier):
     if tier == "thorough":
         out += [("core", s) for s in seq_shards(SIGMA_CORE, 7, min_len=7)]
     out += [("lists", i) for i in range(len(CATALOGUE))]
-    out += [("mw", 0), ("depth", 0)] + [("midlists", i) for i in range(5)]
+    out += [("mw", 0), ("depth", 0), ("aftersiblings", 0)] + [("midlists", i) for i in range(5)]
     out += spaces.ball_shards(1, 3 if tier == "thorough" else 2)
     out += [("ball", b, 2, st, n) for (_, b, _, st, n) in spaces.ball_shards(len(BASES), 2) if b > 0]
     return out
@@ -205,6 +205,71 @@ def check_middleware(acc):
                 acc.exception(ex, {"middleware": s, "inplace": inplace}, "SeparateCoAuthors/MergeCoAuthors")
 
 
+class Loud(str):
+    """A str subclass whose str() and format() are not its text (like a str-Enum member's)."""
+
+    def __str__(self):
+        return "<<" + str.__str__(self) + ">>"
+
+    def __format__(self, spec):
+        return format(str(self), spec)
+
+
+def check_value_kinds(acc):
+    """Values that are strings without being exactly str: split as the text they are."""
+    from ..subtypes import SE, S
+
+    texts = CATALOGUE[:8] + [a + sep + b for a in CATALOGUE[:4] for b in CATALOGUE[:4] for sep in SEPS[:2]]
+    for s in texts:
+        for kind, v in (("str subclass", S(s)), ("str subclass with its own __str__", Loud(s))):
+            case = {"value_kind": kind, "text": s}
+            acc.trace()
+            acc.case(nontrivial_key=("kind", kind, s))
+            try:
+                got = split_multiple_persons_names(v)
+                e = SeparateCoAuthors(allow_inplace_modification=False).transform(Library([Entry("a", "k", [Field("author", v), Field("title", v)])])).blocks[0]
+                got_mw = [f.value for f in e.fields]
+            except Exception as ex:
+                acc.exception(ex, case, "split of a str-subclass value")
+                continue
+            exp = R.split_coauthors(s)
+            if got != exp or got_mw[0] != exp or got_mw[1] != s or type(got_mw[1]) is not type(v):
+                acc.violation({"oracle": "separator_rule", "direction": "value of a str subclass"}, {"case": case, "observed": [got, repr(got_mw)[:200]], "expected": exp})
+    for member, exp in ((SE.AUTHORS, ["Ada Lovelace", "Alan Turing"]), (SE.TITLE, ["title"])):
+        case = {"value_kind": "str-Enum member", "text": member.value}
+        acc.trace()
+        acc.case(nontrivial_key=("kind", "enum", member.value))
+        try:
+            got = split_multiple_persons_names(member)
+            e = SeparateCoAuthors().transform(Library([Entry("a", "k", [Field("author", member)])])).blocks[0]
+            back = MergeCoAuthors().transform(Library([Entry("a", "k", [Field("author", [member, Loud("X Y")])])])).blocks[0]
+        except Exception as ex:
+            acc.exception(ex, case, "split of a str-Enum value")
+            continue
+        if got != exp or e.fields[0].value != exp or back.fields[0].value != member.value + " and X Y":
+            acc.violation({"oracle": "separator_rule", "direction": "value of a str subclass"}, {"case": case, "observed": [got, e.fields[0].value, back.fields[0].value], "expected": exp})
+
+
+def check_after_sibling_calls(acc, tier):
+    """History: the name parser (which treats the tie '~' as a blank inside one name) has run before the co-author splitter
+    (for which '~' is an ordinary character) - every string over {A, ~, and, blank, tab} up to 6 (7) tokens."""
+    from bibtexparser.middlewares.names import parse_single_name_into_parts
+
+    for warm in ("Jean~Paul de~la Sartre, Jr, X", "A~B"):
+        try:
+            parse_single_name_into_parts(warm)
+            SplitNameParts().transform(Library([Entry("a", "k", [Field("author", [warm])])]))
+        except Exception as ex:
+            acc.exception(ex, {"after_sibling_calls": warm}, "parse_single_name_into_parts")
+    toks = ["A", "~", "and", " ", "\t"]
+    for n in range(1, (6 if tier == "quick" else 7) + 1):
+        for seq in itertools.product(toks, repeat=n):
+            if "~" not in seq:
+                continue
+            acc.count("strings_after_the_name_parser_ran")
+            check_string("".join(seq), acc)
+
+
 def run_shard(shard, tier, acc):
     kind = shard[0]
     if kind == "seq":
@@ -268,6 +333,9 @@ def run_shard(shard, tier, acc):
             check_string(" and ".join("{Inst %d and Co}" % i for i in range(n)), acc)
     elif kind == "mw":
         check_middleware(acc)
+        check_value_kinds(acc)
+    elif kind == "aftersiblings":
+        check_after_sibling_calls(acc, tier)
     elif kind == "ball":
         for toks in spaces.ball_iter(BASES[shard[1]], SIGMA, shard):
             acc.count("deviation_strings")
@@ -275,7 +343,11 @@ def run_shard(shard, tier, acc):
 
 
 def replay(case, acc):
-    if "string" in case:
+    if "value_kind" in case:
+        check_value_kinds(acc)
+    elif "string" in case:
+        if "~" in case["string"]:
+            check_after_sibling_calls(acc, "quick")  # (the history this string was found under, if it was that family)
         check_string(case["string"], acc, case)
     else:
         check_middleware(acc)
